@@ -1,7 +1,7 @@
 # options: {}
 """Quadrature elements and a custom rule."""
 import basix.ufl
-from ufl import Coefficient, FunctionSpace, Mesh, TestFunction, dx
+from ufl import Coefficient, FunctionSpace, Mesh, SpatialCoordinate, TestFunction, dx
 
 cell = "triangle"
 mesh = Mesh(basix.ufl.element("Lagrange", cell, 1, shape=(2,)))
@@ -9,4 +9,8 @@ V = FunctionSpace(mesh, basix.ufl.element("Lagrange", cell, 1))
 Q = FunctionSpace(mesh, basix.ufl.quadrature_element(cell, scheme="default", degree=2))
 v, q = TestFunction(V), Coefficient(Q)
 L = q * v * dx(metadata={"quadrature_degree": 2})
-forms = [L]
+# one subdomain, two integrals: the one with the quadrature element uses the element's rule, the other one its own
+f = Coefficient(FunctionSpace(mesh, basix.ufl.element("Lagrange", cell, 2)))
+x = SpatialCoordinate(mesh)
+L2 = q * v * dx + f * f * v * dx(degree=4) + x[0] ** 4 * v * dx(metadata={"quadrature_degree": 5})
+forms = [L, L2]
